@@ -130,8 +130,12 @@ func c11A5Refs(r *core.R) {
 				if idv != nil && idPos != nil {
 					if lk, ok := c11IsPosition(paths, p.st, idPos, lenL); ok && lk == p.loopKey {
 						elem := &c11V{k: "index", xs: []*c11V{setList, idPos}}
-						if v := idv; v.k == "call" && v.recv && v.fn != nil && v.fn.Name() == "FeatureID" && len(v.xs) == 1 && c11StripPtr(v.xs[0]).key() == elem.key() {
-							okIDs = true
+						if v := idv; v.k == "call" && v.recv && v.fn != nil && v.fn.Name() == "FeatureID" && len(v.xs) == 1 {
+							// <elem>.FeatureID(), or the feature id of the element's own ID field (what WayNode.FeatureID returns)
+							rv := c11StripPtr(v.xs[0])
+							if rv.key() == elem.key() || (rv.k == "field" && rv.obj.Name() == "ID" && c11StripPtr(rv.xs[0]).key() == elem.key()) {
+								okIDs = true
+							}
 						}
 					}
 				}
